@@ -61,8 +61,20 @@ var c15Table = []fieldRule{
 	{"RawManager", "nodes", "guarded", "mu", nil, "node pool"},
 	{"RawManager", "lookup", "guarded", "mu", nil, "node pool index"},
 	{"Correctable", "donech", "once", "", nil, "set in the literal"},
+	{"Correctable", "reply", "guarded", "mu", nil, "correctable state"},
+	{"Correctable", "level", "guarded", "mu", nil, "correctable state"},
+	{"Correctable", "err", "guarded", "mu", nil, "correctable state"},
+	{"Correctable", "done", "guarded", "mu", nil, "correctable state"},
+	{"Correctable", "watchers", "guarded", "mu", nil, "correctable state"},
 	{"Async", "c", "once", "", nil, "set in the literal"},
+	{"Async", "reply", "protocol", "", nil, "written before close(c), read after <-c (C15-P1 = C02-T6)"},
+	{"Async", "err", "protocol", "", nil, "written before close(c), read after <-c (C15-P1 = C02-T6)"},
 }
+
+// c15Types are the structs whose objects are shared between goroutines; every
+// field of them must have a discipline: a table row, or one inferred by
+// c15Infer for fields the table does not know (added later).
+var c15Types = []string{"channel", "RawNode", "RawManager", "Correctable", "Async"}
 
 type fieldAccess struct {
 	fn    *ssa.Function
@@ -162,7 +174,12 @@ func runC15(l *core.Ledger) {
 		acc := collectAccesses(l, r, row.typ, row.field)
 		// the field must exist
 		if tn, _ := r.pkg.Types.Scope().Lookup(row.typ).(*types.TypeName); tn == nil || sx.FieldIndex(tn.Type(), row.field) < 0 {
-			l.Unknown("C15-L1", fmt.Sprintf("table/%s.%s", row.typ, row.field), token.NoPos, "field of the shared-state table no longer exists: the table must be re-confirmed")
+			// nothing left to protect; whatever replaced it is classified by c15Infer
+			l.Note("table row %s.%s: the field no longer exists", row.typ, row.field)
+			continue
+		}
+		if row.kind == "protocol" {
+			total += len(acc)
 			continue
 		}
 		total += len(acc)
@@ -259,6 +276,9 @@ func runC15(l *core.Ledger) {
 		}
 	}
 	l.Floor("C15-L1", total, 80, "accesses to fields of the shared-state table")
+	c15Infer(l, r, roots, lockState)
+	c15Pointees(l, r, roots, lockState)
+	c15Globals(l, r, roots, lockState)
 
 	// atomicFlag methods use only sync/atomic
 	for _, name := range []string{"set", "get", "clear"} {
@@ -485,4 +505,432 @@ func c15Request(l *core.Ledger, r *rt) {
 	}
 	sort.Strings(bad)
 	l.Check(len(bad) == 0, "C15-R1", "who-may-write/request,Message", token.NoPos, "requests and messages are immutable after construction", fmt.Sprintf("a shared request/message is written after construction: %v", bad))
+}
+
+// c15Infer classifies every field of the shared structs that the table does
+// not list. Accepted disciplines, in this order: the field is itself a
+// synchronisation primitive; it is never written after construction (writes
+// only through a fresh allocation or in the pre-publication initialisers the
+// table names); every access is atomic; one mutex is held at every access
+// (write-held at writes); all accesses happen on one library goroutine.
+// Anything else is an unsynchronised shared field.
+func c15Infer(l *core.Ledger, r *rt, roots []goRoot, lockState func(*ssa.Function) *sx.LockState) {
+	inTable := map[string]bool{}
+	inits := map[string]bool{}
+	for _, row := range c15Table {
+		inTable[row.typ+"."+row.field] = true
+		for _, in := range row.inits {
+			inits[in] = true
+		}
+	}
+	nfields := 0
+	for _, typ := range c15Types {
+		tn, _ := r.pkg.Types.Scope().Lookup(typ).(*types.TypeName)
+		if tn == nil {
+			l.Unknown("C15-L1", "type/"+typ, token.NoPos, "shared struct type not found")
+			continue
+		}
+		st, ok := tn.Type().Underlying().(*types.Struct)
+		if !ok {
+			l.Unknown("C15-L1", "type/"+typ, token.NoPos, "shared type is no longer a struct")
+			continue
+		}
+		for i := 0; i < st.NumFields(); i++ {
+			fld := st.Field(i)
+			key := typ + "." + fld.Name()
+			nfields++
+			if inTable[key] {
+				continue
+			}
+			if c15SelfSync(fld.Type()) {
+				l.OK("C15-L1", key, fld.Pos(), "synchronisation primitive")
+				continue
+			}
+			acc := collectAccesses(l, r, typ, fld.Name())
+			var live []fieldAccess
+			for _, a := range acc {
+				if !a.fresh {
+					live = append(live, a)
+				}
+			}
+			// never written after construction
+			written := false
+			for _, a := range live {
+				if a.kind != "read" && !inits[fnKey(a.fn)] {
+					written = true
+				}
+			}
+			if !written {
+				l.OK("C15-O1", key, fld.Pos(), "inferred: never written after construction")
+				continue
+			}
+			// all atomic
+			atomicOnly := true
+			for _, a := range live {
+				if !strings.HasPrefix(a.kind, "addr:sync/atomic.") {
+					atomicOnly = false
+				}
+			}
+			if atomicOnly {
+				l.OK("C15-A1", key, fld.Pos(), fmt.Sprintf("inferred: %d accesses, all through sync/atomic", len(live)))
+				continue
+			}
+			// a common mutex
+			var common map[string]bool
+			for _, a := range live {
+				cur := map[string]bool{}
+				for _, h := range lockState(a.fn).HeldAt(sx.NodeOf(a.at)) {
+					if !h.Read || a.kind == "read" {
+						cur[h.Field] = true
+					}
+				}
+				if common == nil {
+					common = cur
+					continue
+				}
+				for k := range common {
+					if !cur[k] {
+						delete(common, k)
+					}
+				}
+			}
+			if len(common) > 0 {
+				var names []string
+				for k := range common {
+					names = append(names, k)
+				}
+				sort.Strings(names)
+				l.OK("C15-L1", key, fld.Pos(), fmt.Sprintf("inferred: %d accesses, all with %s held", len(live), strings.Join(names, "/")))
+				continue
+			}
+			// confined to one library goroutine
+			rootSet := map[string]bool{}
+			for _, a := range live {
+				for k := range c15RootsOf(roots, a.fn) {
+					if k == "user goroutines" {
+						k = "API"
+					}
+					rootSet[k] = true
+				}
+			}
+			if len(rootSet) == 1 && !rootSet["API"] {
+				for k := range rootSet {
+					l.OK("C15-L1", key, fld.Pos(), "inferred: all accesses happen on one library goroutine ("+k+")")
+				}
+				continue
+			}
+			var where []string
+			for _, a := range live {
+				where = append(where, fnKey(a.fn)+":"+a.kind)
+			}
+			sort.Strings(where)
+			var rs []string
+			for k := range rootSet {
+				rs = append(rs, k)
+			}
+			sort.Strings(rs)
+			l.Bad("C15-L1", key, fld.Pos(), fmt.Sprintf("field of a struct shared between goroutines is written after construction with no common mutex, not atomically, and from more than one goroutine (%v): accesses %v", rs, where))
+		}
+	}
+	l.Floor("C15-L1", nfields, 30, "fields of the shared structs classified")
+}
+
+func c15SelfSync(t types.Type) bool {
+	for _, n := range []string{"Mutex", "RWMutex", "Once", "WaitGroup"} {
+		if isNamed(t, "sync", n) {
+			return true
+		}
+	}
+	if isNamed(t, core.RootModule, "atomicFlag") {
+		return true
+	}
+	if nt, ok := t.(*types.Named); ok && nt.Obj().Pkg() != nil && nt.Obj().Pkg().Path() == "sync/atomic" {
+		return true
+	}
+	return false
+}
+
+// ---------------------------------------------------------------- pointees and globals
+
+// c15ThreadSafe lists external struct types whose methods are documented as
+// safe for concurrent use; a pointer to any other external struct held in a
+// shared field is treated as unsynchronised state of its own.
+var c15ThreadSafe = map[string]bool{
+	"google.golang.org/grpc.ClientConn": true,
+	"google.golang.org/grpc.Server":     true,
+	"log.Logger":                        true,
+	"sync.Mutex":                        true,
+	"sync.RWMutex":                      true,
+	"sync.Once":                         true,
+	"sync.WaitGroup":                    true,
+}
+
+// mutatesReceiver: the method stores through its receiver (directly or in a
+// method of the same receiver it calls).
+func mutatesReceiver(f *ssa.Function, depth int) bool {
+	if f == nil || len(f.Blocks) == 0 || len(f.Params) == 0 || f.Signature.Recv() == nil || depth > 3 {
+		return false
+	}
+	recv := f.Params[0]
+	found := false
+	sx.AllInstrs(f, func(_ sx.Node, in ssa.Instruction) {
+		switch x := in.(type) {
+		case *ssa.Store:
+			if fa, ok := x.Addr.(*ssa.FieldAddr); ok && sx.All(sx.Origins(fa.X), sx.IsParam(recv)) {
+				found = true
+			}
+		case *ssa.MapUpdate:
+			if sx.All(sx.Origins(x.Map), func(o sx.Origin) bool { return o.Kind == sx.KField && sx.All(o.Base, sx.IsParam(recv)) }) {
+				found = true
+			}
+		case *ssa.Call:
+			if callee := x.Call.StaticCallee(); callee != nil && inRepo(callee) && callee.Signature.Recv() != nil && len(x.Call.Args) > 0 &&
+				sx.All(sx.Origins(x.Call.Args[0]), sx.IsParam(recv)) && mutatesReceiver(callee, depth+1) {
+				found = true
+			}
+		}
+	})
+	return found
+}
+
+type sharedUse struct {
+	fn *ssa.Function
+	at ssa.Instruction
+	by string
+}
+
+// c15Discipline decides whether a set of mutating uses of one shared object
+// is serialised: by a lock common to all uses whose identity satisfies
+// lockOK, or by confinement to one library goroutine.
+func c15Discipline(l *core.Ledger, r *rt, roots []goRoot, lockState func(*ssa.Function) *sx.LockState, uses []sharedUse, lockOK func(sx.Held) bool) (bool, string) {
+	var common map[string]bool
+	for _, u := range uses {
+		cur := map[string]bool{}
+		for _, h := range lockState(u.fn).HeldAt(sx.NodeOf(u.at)) {
+			if !h.Read && lockOK(h) {
+				cur[h.Lock] = true
+			}
+		}
+		if common == nil {
+			common = cur
+			continue
+		}
+		for k := range common {
+			if !cur[k] {
+				delete(common, k)
+			}
+		}
+	}
+	if len(common) > 0 {
+		for k := range common {
+			return true, "all uses hold " + k
+		}
+	}
+	rootSet := map[string]bool{}
+	for _, u := range uses {
+		for k := range c15RootsOf(roots, u.fn) {
+			rootSet[k] = true
+		}
+	}
+	var rs []string
+	for k := range rootSet {
+		rs = append(rs, k)
+	}
+	sort.Strings(rs)
+	if len(rootSet) == 0 {
+		return true, "never used after initialisation"
+	}
+	if len(rootSet) == 1 && !rootSet["user goroutines"] {
+		return true, "confined to " + rs[0]
+	}
+	return false, strings.Join(rs, ", ")
+}
+
+// c15Pointees: a shared struct field that points to an external object which
+// is not safe for concurrent use (e.g. *rand.Rand) makes every method call on
+// that object a write to shared state.
+func c15Pointees(l *core.Ledger, r *rt, roots []goRoot, lockState func(*ssa.Function) *sx.LockState) {
+	for _, typ := range c15Types {
+		tn, _ := r.pkg.Types.Scope().Lookup(typ).(*types.TypeName)
+		if tn == nil {
+			continue
+		}
+		st, ok := tn.Type().Underlying().(*types.Struct)
+		if !ok {
+			continue
+		}
+		for i := 0; i < st.NumFields(); i++ {
+			fld := st.Field(i)
+			pt, ok := fld.Type().(*types.Pointer)
+			if !ok {
+				continue
+			}
+			nt, ok := pt.Elem().(*types.Named)
+			if !ok || nt.Obj().Pkg() == nil || strings.HasPrefix(nt.Obj().Pkg().Path(), core.RootModule) {
+				continue
+			}
+			if _, isStruct := nt.Underlying().(*types.Struct); !isStruct {
+				continue
+			}
+			full := nt.Obj().Pkg().Path() + "." + nt.Obj().Name()
+			key := typ + "." + fld.Name() + "/pointee"
+			if c15ThreadSafe[full] {
+				l.OK("C15-L1", key, fld.Pos(), full+" is documented as safe for concurrent use")
+				continue
+			}
+			var uses []sharedUse
+			for _, a := range collectAccesses(l, r, typ, fld.Name()) {
+				if a.kind != "read" {
+					continue
+				}
+				ld, ok := a.at.(*ssa.UnOp)
+				if !ok {
+					continue
+				}
+				for _, ref := range *ld.Referrers() {
+					cc := sx.CallOf(ref)
+					if cc == nil || len(cc.Args) == 0 || cc.Args[0] != ssa.Value(ld) || cc.IsInvoke() {
+						continue
+					}
+					if callee := cc.StaticCallee(); callee != nil && callee.Signature.Recv() != nil {
+						uses = append(uses, sharedUse{a.fn, ref, sx.StaticCalleeName(cc)})
+					}
+				}
+			}
+			if len(uses) == 0 {
+				l.OK("C15-L1", key, fld.Pos(), "no method of the "+full+" is called")
+				continue
+			}
+			ok2, how := c15Discipline(l, r, roots, lockState, uses, func(sx.Held) bool { return true })
+			var where []string
+			for _, u := range uses {
+				where = append(where, fnKey(u.fn)+"→"+u.by)
+			}
+			sort.Strings(where)
+			l.Check(ok2, "C15-L1", key, uses[0].at.Pos(), fmt.Sprintf("%d method calls on the %s: %s", len(uses), full, how),
+				fmt.Sprintf("%s.%s points to a %s, which is not safe for concurrent use, and its methods are called with no common lock from more than one goroutine (%s): %v", typ, fld.Name(), full, how, where))
+		}
+	}
+}
+
+// c15Globals: package-level variables of the runtime are shared by every
+// manager and every goroutine of the process. Each is either never modified
+// after package initialisation (neither re-assigned nor mutated through a
+// receiver-mutating method or a field/element store), or every modification
+// holds one lock that is itself package-level.
+func c15Globals(l *core.Ledger, r *rt, roots []goRoot, lockState func(*ssa.Function) *sx.LockState) {
+	sp := l.Prog.SSAPkg(r.pkg)
+	var names []string
+	for name, m := range sp.Members {
+		if g, ok := m.(*ssa.Global); ok && g.Pos().IsValid() && !strings.HasSuffix(l.Prog.RelFile(g.Pos()), ".pb.go") {
+			names = append(names, name)
+		}
+	}
+	sort.Strings(names)
+	n := 0
+	for _, name := range names {
+		g := sp.Members[name].(*ssa.Global)
+		n++
+		var uses []sharedUse
+		for _, f := range allFuncs(l.Prog, r.pkg) {
+			f := f
+			sx.AllInstrs(f, func(_ sx.Node, in ssa.Instruction) {
+				switch x := in.(type) {
+				case *ssa.Store:
+					if x.Addr == ssa.Value(g) {
+						uses = append(uses, sharedUse{f, x, "assignment"})
+					} else if sx.Any(sx.Origins(x.Addr), func(o sx.Origin) bool { return rootedAtGlobal(o, g, 0) }) {
+						uses = append(uses, sharedUse{f, x, "store through the variable"})
+					}
+				case *ssa.MapUpdate:
+					if sx.Any(sx.Origins(x.Map), func(o sx.Origin) bool { return rootedAtGlobal(o, g, 0) }) {
+						uses = append(uses, sharedUse{f, x, "map update"})
+					}
+				default:
+					cc := sx.CallOf(in)
+					if cc == nil || cc.IsInvoke() || len(cc.Args) == 0 {
+						return
+					}
+					callee := cc.StaticCallee()
+					if callee == nil || callee.Signature.Recv() == nil || !inRepo(callee) {
+						return
+					}
+					if sx.Any(sx.Origins(cc.Args[0]), func(o sx.Origin) bool { return rootedAtGlobal(o, g, 0) }) && mutatesReceiver(callee, 0) {
+						uses = append(uses, sharedUse{f, in, "receiver-mutating " + sx.StaticCalleeName(cc)})
+					}
+				}
+			})
+		}
+		key := "global/" + name
+		if len(uses) == 0 {
+			l.OK("C15-L1", key, g.Pos(), "never modified")
+			continue
+		}
+		ok, how := c15Discipline(l, r, roots, lockState, uses, func(h sx.Held) bool { return strings.Contains(h.Lock, "global(") })
+		var where []string
+		for _, u := range uses {
+			where = append(where, fnKey(u.fn)+": "+u.by)
+		}
+		sort.Strings(where)
+		pos := g.Pos()
+		if !ok {
+			pos = uses[len(uses)-1].at.Pos()
+		}
+		l.Check(ok, "C15-L1", key, pos, fmt.Sprintf("%d modifications: %s", len(uses), how),
+			fmt.Sprintf("package-level variable %s is shared by every goroutine of the process and is modified with no package-level lock from %s: %v", name, how, where))
+	}
+	l.Floor("C15-L1", n, 5, "package-level variables of the runtime")
+}
+
+func rootedAtGlobal(o sx.Origin, g *ssa.Global, depth int) bool {
+	if depth > 4 {
+		return false
+	}
+	if (o.Kind == sx.KGlobal || o.Kind == sx.KGlobalAddr) && o.V == ssa.Value(g) {
+		return true
+	}
+	for _, b := range o.Base {
+		if rootedAtGlobal(b, g, depth+1) {
+			return true
+		}
+	}
+	return false
+}
+
+// c15RootsOf names the goroutines a function can run on: the library
+// goroutines whose root reaches it through static calls, "user goroutines"
+// when an exported function does - or when nothing reaches it statically
+// (methods called through an interface, function values). Package
+// initialisation is single-threaded and yields nothing.
+func c15RootsOf(roots []goRoot, fn *ssa.Function) map[string]bool {
+	out := map[string]bool{}
+	top := fn
+	for top.Parent() != nil {
+		isRoot := false
+		for _, rt := range roots {
+			if rt.fn == top && rt.site != nil {
+				isRoot = true
+			}
+		}
+		if isRoot {
+			break
+		}
+		top = top.Parent()
+	}
+	if top.Name() == "init" && top.Parent() == nil && top.Signature.Recv() == nil {
+		return out
+	}
+	for _, rt := range roots {
+		if rt.fn == top || len(callPaths(rt.fn, top)) > 0 {
+			if rt.site != nil {
+				out["go "+fnKey(rt.fn)] = true
+			} else {
+				out["user goroutines"] = true
+			}
+		}
+	}
+	if len(out) == 0 {
+		out["user goroutines"] = true
+	}
+	return out
 }
